@@ -57,6 +57,8 @@ type Report struct {
 	seen       map[string]*Obligation
 	Stats      map[string]int
 	Shared     *Shared
+	Witness    []WitnessResult
+	Configs    []string
 }
 
 func NewReport(p *Prog, property, tier string) *Report {
@@ -275,12 +277,16 @@ func (r *Report) Finish(verifDir string, known *KnownFile, spec *PropSpec, wall 
 			fmt.Printf("  [%s] %s  %s  %s\n", o.Status, o.Key, o.Pos, o.Msg)
 		}
 	}
-	os.MkdirAll(filepath.Join(verifDir, "evidence", "replay"), 0o755)
+	if !KeysOnly {
+		os.MkdirAll(filepath.Join(verifDir, "evidence", "replay"), 0o755)
+	}
 	for _, o := range out.Violations {
 		rp := filepath.Join(verifDir, "evidence", "replay", r.Property+"-"+keyHash(o.Key)+".json")
-		b, _ := json.MarshalIndent(replayFile{Property: r.Property, Key: o.Key, Obl: o,
-			Replay: "cd /verif && bin/colvet -replay " + rp}, "", " ")
-		os.WriteFile(rp, b, 0o644)
+		if !KeysOnly {
+			b, _ := json.MarshalIndent(replayFile{Property: r.Property, Key: o.Key, Obl: o,
+				Replay: "cd /verif && ./check --replay " + rp}, "", " ")
+			os.WriteFile(rp, b, 0o644)
+		}
 		fmt.Printf("VIOLATION property=%s replay=%s\n", r.Property, rp)
 		fmt.Printf("  rule   %s: %s\n", o.Rule, r.ruleIdx[o.Rule].Text)
 		fmt.Printf("  where  %s  [%s]\n", o.Pos, o.Key)
@@ -295,13 +301,24 @@ func (r *Report) Finish(verifDir string, known *KnownFile, spec *PropSpec, wall 
 	for _, o := range out.Undecided {
 		fmt.Printf("UNDECIDED property=%s [%s] %s\n", r.Property, o.Key, o.Msg)
 	}
+	if KeysOnly {
+		for _, o := range out.Violations {
+			fmt.Println("KEY violated " + o.Key)
+		}
+		for _, o := range out.Known {
+			fmt.Println("KEY violated " + o.Key)
+		}
+		for _, o := range out.Undecided {
+			fmt.Println("KEY undecided " + o.Key)
+		}
+	}
 	switch {
 	case len(out.Violations) > 0:
 		out.Exit = 1
 	case len(out.Undecided) > 0:
 		out.Exit = 2
 	}
-	if onlyKey == "" {
+	if onlyKey == "" && !KeysOnly {
 		r.writeEvidence(verifDir, spec, wall, nd, out)
 	}
 	fmt.Printf("%s tier=%s: %d obligations, %d discharged, %d violated, %d known findings, %d undecided; %d rules; %d library functions in %d files; %.1fs; exit %d\n",
@@ -363,6 +380,8 @@ func (r *Report) writeEvidence(verifDir string, spec *PropSpec, wall time.Durati
 			"packages":           []string{ModPath, CommitPath},
 			"goarch":             r.P.GOARCH,
 			"stats":              r.Stats,
+			"witnesses":          r.Witness,
+			"configurations":     r.Configs,
 			"notes":              r.Notes,
 			"trusted_base": []string{
 				"go/types and go/ssa (golang.org/x/tools v0.29.0) model the program faithfully",
@@ -380,6 +399,9 @@ func (r *Report) writeEvidence(verifDir string, spec *PropSpec, wall time.Durati
 	os.MkdirAll(filepath.Join(verifDir, "evidence"), 0o755)
 	os.WriteFile(filepath.Join(verifDir, "evidence", r.Property+".json"), b, 0o644)
 }
+
+// KeysOnly: machine-readable mode used by the witness runner (no evidence, no replay files).
+var KeysOnly bool
 
 // PropSpec describes a property's check for the evidence file and the CLI.
 type PropSpec struct {
